@@ -104,6 +104,10 @@ class IniScenario:
                 self.keys_text[k] = v
         self.stdout = "true" in (vals["stdout"], vals["stdout_color"])
         self.stderr = "true" in (vals["stderr"], vals["stderr_color"])
+        self.color_out = vals["stdout_color"] == "true"
+        self.color_err = vals["stderr_color"] == "true"
+        # which of the child's standard streams are terminals (a colour key colours only a stream that is one)
+        self.tty_out, self.tty_err = r.choice([(False, False), (False, False), (True, False), (False, True), (True, True)])
         self.platform = True
         x = r.random()
         if x < 0.5:
@@ -162,6 +166,7 @@ class IniScenario:
     def keys(self):
         return {"rules": self.rules, "rx": self.rx, "fmt": "pattern" if self.pattern else "pretty", "stdout": self.stdout,
                 "stderr": self.stderr, "platform": self.platform, "file": self.file,
+                "colorOut": self.color_out, "colorErr": self.color_err, "ttyOut": self.tty_out, "ttyErr": self.tty_err,
                 "fopt": dict(self.fopt, old=[u(l) for l in self.fopt["old"]])}
 
     def describe(self):
@@ -236,9 +241,58 @@ def read_rotated(scn):
     return [r for _, r in sorted(found, key=lambda x: x[0])]
 
 
+def _capture(cmd, env, tty_out, tty_err, timeout=60):
+    """run cmd with stdout / stderr on pipes or on pseudo-terminals (raw mode: no newline translation)"""
+    import pty
+    import threading
+    import tty as ttymod
+
+    def channel(use_tty):
+        if use_tty:
+            m, sl = pty.openpty()
+            ttymod.setraw(sl)
+            return m, sl
+        return os.pipe()
+
+    ro, wo = channel(tty_out)
+    re_, we = channel(tty_err)
+    p = subprocess.Popen(cmd, stdout=wo, stderr=we, stdin=subprocess.DEVNULL, env=env, close_fds=True)
+    os.close(wo)
+    os.close(we)
+    bufs = {ro: bytearray(), re_: bytearray()}
+
+    def pump(fd):
+        while True:
+            try:
+                b = os.read(fd, 65536)
+            except OSError:          # EIO: the terminal's last writer is gone
+                break
+            if not b:
+                break
+            bufs[fd] += b
+        os.close(fd)
+    ths = [threading.Thread(target=pump, args=(fd,)) for fd in (ro, re_)]
+    for t in ths:
+        t.start()
+    try:
+        rc = p.wait(timeout=timeout)
+    except subprocess.TimeoutExpired:
+        p.kill()
+        rc = p.wait()
+    for t in ths:
+        t.join()
+    return rc, bytes(bufs[ro]), bytes(bufs[re_])
+
+
 def run_child(bdir, mode, scn):
-    p = subprocess.run([str(bdir / "drv_config"), mode, str(scn.write())], capture_output=True, timeout=60,
-                       env={"LC_ALL": "C.UTF-8", "TZ": "UTC", "PATH": "/usr/bin:/bin", "ASAN_OPTIONS": "detect_leaks=0"})
+    rc, so, se = _capture([str(bdir / "drv_config"), mode, str(scn.write())],
+                          {"LC_ALL": "C.UTF-8", "TZ": "UTC", "PATH": "/usr/bin:/bin", "ASAN_OPTIONS": "detect_leaks=0"},
+                          getattr(scn, "tty_out", False), getattr(scn, "tty_err", False))
+
+    class P:
+        pass
+    p = P()
+    p.returncode, p.stdout, p.stderr = rc, so, se
     file_lines = []
     nbytes = 0
     exists = scn.logpath.exists()
